@@ -273,6 +273,9 @@ namespace GeographicLib {
   {
     Math::sincosd(_azi12, _salp, _calp);
     _phi1 = AuxAngle::degrees(lat1);
+    // at a pole take cos(lat1) = epsilon^2 (as documented) to keep psi1 finite
+    if (_phi1.x() == 0)
+      _phi1.x() = Math::sq(numeric_limits<real>::epsilon());
     _mu1 = _rh._aux.Convert(AuxLatitude::PHI, AuxLatitude::MU,
                             _phi1, _rh._exact).degrees();
     _chi1 = _rh._aux.Convert(AuxLatitude::PHI, AuxLatitude::CHI,
